@@ -178,8 +178,15 @@ func vScenarioC16(rc *runCtx) {
 	var stream []byte
 	var allKinds []string
 	types := []string{"SUCC", "DATA", "NAME", "SIZE", "MD5", "CFG", "NUM", "EXIT"}
+	// the two handshake lines are read before anybody knows whether a tmux sits in between: the receive-string
+	// operation is then asked for junk tolerance explicitly, the negotiated flag comes later
+	handshake := !win && tp.Bool("c16.handshake", 250)
 	for i := 0; i < nlines; i++ {
 		it := item{typ: types[tp.Draw("c16.typ", len(types))], payload: vProtoPayload(tp, 1+tp.Draw("c16.plen", 80))}
+		if handshake && i == 0 {
+			it.typ = []string{"ACT", "CFG"}[tp.Draw("c16.hstyp", 2)]
+			it.payload = vEncode(tp.Bytes("c16.hsraw", 1+tp.Draw("c16.hslen", 120)))
+		}
 		if win {
 			it.noisy, it.kinds = vWinNoise(tp, it.typ, it.payload)
 		} else {
@@ -194,7 +201,8 @@ func vScenarioC16(rc *runCtx) {
 		ctrlAt = tp.Draw("c16.ctrlat", len(stream))
 		stream = append(append(append([]byte{}, stream[:ctrlAt]...), 0x03), stream[ctrlAt:]...)
 	}
-	rc.res.ClassKey = fmt.Sprintf("win=%v ctrlc=%v %v", win, ctrlC, vKindSet(allKinds))
+	rc.res.ClassKey = fmt.Sprintf("win=%v ctrlc=%v hs=%v %v", win, ctrlC, handshake, vKindSet(allKinds))
+	rc.res.Scenario["handshake_line_first"] = handshake
 	rc.res.Scenario["reader"] = map[bool]string{true: "windows-console", false: "tmux-junk"}[win]
 	rc.res.Scenario["noise"] = vKindSet(allKinds)
 	rc.res.Scenario["stream"] = vQuote(stream, 200)
@@ -212,7 +220,7 @@ func vScenarioC16(rc *runCtx) {
 	t := newTransfer(discardWriter{}, nil, false, nil)
 	if win {
 		t.windowsProtocol = true
-	} else {
+	} else if !handshake {
 		t.transferConfig.TmuxOutputJunk = true
 	}
 	type result struct {
@@ -222,8 +230,19 @@ func vScenarioC16(rc *runCtx) {
 	var got []result
 	consumerDone := false
 	w.Go("consumer", nil, func() {
-		for _, it := range items {
-			buf, err := t.recvCheck(it.typ, false, nil)
+		for i, it := range items {
+			var buf string
+			var err error
+			if handshake && i == 0 {
+				var str string
+				str, err = t.recvString(it.typ, true, nil)
+				if err == nil {
+					buf = vEncode([]byte(str))
+				}
+				t.transferConfig.TmuxOutputJunk = true
+			} else {
+				buf, err = t.recvCheck(it.typ, false, nil)
+			}
 			r := result{line: buf}
 			if err != nil {
 				r.err = err.Error()
